@@ -22,6 +22,10 @@ def new_id() -> int:
         return _counter[0]
 
 
+def thread() -> int:
+    return threading.get_ident()
+
+
 def emit(record: dict) -> None:
     if not ON:
         return
